@@ -136,7 +136,7 @@ def run(ctx):
     # ---- 2. guarded divisions
     nd = 0
     for fid in (ENG + '::compute_global_trust_internal', ENG + '::compute_multi_factor_adjustment'):
-        b = prog.async_body(fid)
+        b = prog.inl(fid, keep=r'::compute_multi_factor_adjustment$')
         ctx.touch(b, len(b.calls()))
         for bi, si, s in b.stmts():
             r = s['r']
@@ -254,7 +254,7 @@ def run(ctx):
 def numeric_rules(ctx, prog, cb):
     """FACTOR-* : numeric clauses of the per-node statistics multiplier, decided by abstract interpretation (interval
     enclosures and derivative signs over the unfolded paths of compute_multi_factor_adjustment; nothing is executed)."""
-    fb = prog.body(ENG + '::compute_multi_factor_adjustment')
+    fb = prog.inl(ENG + '::compute_multi_factor_adjustment')      # with its private helpers spliced in
     ctx.touch(fb, len(fb.calls()))
     U64 = (0.0, float(2 ** 64))
     try:
@@ -483,4 +483,6 @@ def _guarded(b, bb, div):
                 for x, y, op in ((cd.lhs, cd.rhs, cd.op), (cd.rhs, cd.lhs, F.CMP_FLIP[cd.op])):
                     if x.strip().show() == it and y.const_value() is not None and op == 'Gt' and y.const_value() >= 0:
                         return True, 'dominated by %s' % cd.brief(80)
+                    if x.strip().show() == it and y.const_value() == 0 and op == 'Ne' and re.match(r'^u(8|16|32|64|128|size)$', str(inner.b.strip().k == 'bin' and 'u64' or L.operand_ty(b, {'p': [0]}) or 'u64')):
+                        return True, 'dominated by %s (unsigned, so > 0)' % cd.brief(80)
     return False, 'no dominating test shows the divisor non-zero (0/0 would poison every score with NaN)'
